@@ -920,7 +920,7 @@ pub fn case(batch: &str, tier: &str, i: u64) -> CaseOut {
     let vs = verif_seed();
     let seeds_on = batch == "seeded-hasher";
     let seed = run_seed(vs, "C17", batch, i);
-    let case = gen_case(seed, seeds_on, tier != "quick");
+    let case = gen_case(seed, seeds_on, !tier.starts_with("quick"));
     let r = check_case(&case);
     let mut out = CaseOut { index: i, seed, ..Default::default() };
     out.evals = case.histories.len() as u64;
@@ -1061,6 +1061,47 @@ pub fn run(tier: &str) -> i32 {
             }
         }
     }
+    // a reduced batch by the dev-profile binary (overflow checks, debug assertions)
+    {
+        let n_dev: u64 = if quick { 300 } else { 8000 };
+        let tdev = format!("{tier}/dev");
+        let chunks = run_batch("C17", "seeded-hasher", n_dev, chunk, &tdev, true);
+        for (ci, ch) in chunks.iter().enumerate() {
+            let chunk_first = ci as u64 * chunk;
+            if let Some((i, how)) = &ch.died {
+                ev.violations.push(Violation {
+                    property: "C17".into(),
+                    oracle: "process_died".into(),
+                    key: format!("dev:process_died:history:seeded-hasher:{chunk_first}..={i}"),
+                    detail: format!("[dev profile] the process formatting ranges ended with {how} at case {i}"),
+                    seed: verif_seed(),
+                    replay: json!({"kind":"chunk","batch":"seeded-hasher","first":chunk_first,"upto":i,"tier":tdev,"profile":"dev","expected_oracle":"process_died"}),
+                });
+            }
+            for c in &ch.cases {
+                ev.merge_case(c);
+                ev.fault("profile_dev", c.evals);
+                logfold.add(c.log);
+                if c.violation.is_some() && ev.violations.len() < 5 {
+                    let min_fn = |replay: &Value, _okey: &str, pred: &dyn Fn(&Value) -> bool| -> (Value, usize) {
+                        match Case::from_json(replay) {
+                            Ok(cs) => {
+                                let (m, t) = minimise(&cs, pred);
+                                (m.to_json(), t)
+                            }
+                            Err(_) => (replay.clone(), 0),
+                        }
+                    };
+                    let key_fn = |okey: &str, min: &Value| -> String {
+                        format!("dev:{}", Case::from_json(min).map(|cs| case_key(okey, &cs)).unwrap_or_else(|_| okey.to_string()))
+                    };
+                    let mut v = settle_violation("C17", "seeded-hasher", &tdev, true, chunk_first, c, &min_fn, &key_fn);
+                    v.detail = format!("[dev profile] {}", v.detail);
+                    ev.violations.push(v);
+                }
+            }
+        }
+    }
     ev.probes.remove("max_distinct_iteration_orders_for_one_content");
     ev.extra.insert("max_distinct_iteration_orders_for_one_content".into(), json!(orders_per_content_max));
     ev.extra.insert("event_log_digest".into(), json!(format!("{:016x}", logfold.get())));
@@ -1078,6 +1119,7 @@ pub fn replay(v: &Value) -> Option<(String, String)> {
         return replay_chunk("C17", r);
     }
     let case = Case::from_json(r).ok()?;
+    let dev = r["profile"].as_str() == Some("dev");
     // evaluated in a fresh process, like every case
-    eval_in_child("C17", r, false).map(|(k, d)| (case_key(&k, &case), d))
+    eval_in_child("C17", r, dev).map(|(k, d)| (format!("{}{}", if dev { "dev:" } else { "" }, case_key(&k, &case)), d))
 }
